@@ -396,6 +396,14 @@ pub fn run_chunk_gen(args: &Args, mut out: Out) {
 fn ser(resp: &Response, close: bool, fail_after: Option<usize>, mode: WMode, on_first: Option<Box<dyn FnOnce() + Send>>) -> (Vec<u8>, String) {
     let mut w = ScriptedWriter::new(mode);
     w.fail_after = fail_after;
+    if let Some(k) = fail_after {
+        // the error's kind varies with the offset, and at every other offset the writer would accept bytes again afterwards
+        use std::io::ErrorKind as K;
+        w.fail_kind = [K::BrokenPipe, K::Interrupted, K::ConnectionReset, K::WouldBlock, K::TimedOut, K::Interrupted, K::WriteZero][k % 7];
+        // (Interrupted and WouldBlock are transient by nature: a writer that reported them for ever would make a retrying
+        // implementation spin, which no budget of polls can interrupt)
+        w.fail_once = k % 2 == 1 || matches!(w.fail_kind, K::Interrupted | K::WouldBlock);
+    }
     w.on_first_write = on_first;
     let r = catch(|| poll_budget(write_http_response(&mut w, resp, close), 5_000_000));
     let k = match r {
